@@ -183,8 +183,18 @@ def rule_lay2(ctx: Ctx) -> RuleResult:
             res = norm(st_.targets[0].elts[1])
         apps = [n for n in walk_no_nested(f0.node) if isinstance(n, ast.Call) and isinstance(n.func, ast.Attribute)
                 and n.func.attr == "append" and n.args and norm(n.args[0]) == res]
-        ok = (from_target or from_rec) and not filt and not cond and len(apps) == 1
+        fresh = True
+        if from_rec and not from_target and c.args and isinstance(c.args[0], ast.Name):
+            # the texts handed over are the ones rendered for THIS entry: the only definition reaching the call is the
+            # recursion over this entry's nested generators
+            ds = ctx.defs_reaching(f0, c, nested_arg) or []
+            fresh = len(ds) == 1 and isinstance(ds[0], ast.Assign) and isinstance(ds[0].value, ast.Call) and \
+                isinstance(ds[0].value.func, ast.Name) and ds[0].value.func.id in mod.functions
+        ok = (from_target or from_rec) and not filt and not cond and len(apps) == 1 and fresh
         why = f"in {f0.name}: nested texts passed={from_target or from_rec}, filtered={filt}, conditional={cond}, appended {len(apps)}x"
+        if not fresh:
+            why += (f"; `{nested_arg}` can still hold the texts rendered for an earlier entry when `{norm(c)[:40]}` runs "
+                    f"(more than one definition reaches the call): a class without nested classes receives its sibling's")
     rr.ob(g.relpath, g.qualname, "one class text per generator", "every generator renders once, receives the texts of its "
           "nested classes, and its class text is appended once", DISCHARGED if ok else VIOLATED, why, g.node.lineno)
     # generate_code joins exactly those classes
